@@ -29,6 +29,18 @@ func (w *recWriter) Write(p []byte) (int, error) {
 	return len(p), nil
 }
 
+// recStringWriter also offers WriteString (as *bytes.Buffer, *bufio.Writer, *os.File do): the text must still arrive
+// through one Write.
+type recStringWriter struct {
+	recWriter
+	strings int
+}
+
+func (w *recStringWriter) WriteString(s string) (int, error) {
+	w.strings++
+	return w.recWriter.Write([]byte(s))
+}
+
 // sfRoute prints its arguments from inside a SafeFormat method.
 type sfRoute struct {
 	printf bool
@@ -102,6 +114,21 @@ func judgeC16(rep *lib.Report, c *lib.Ctx, ln *printerLine, res *realResult, kas
 			rep.Violate("routes:fprint-result", fmt.Sprintf("%s: Fprint returned (%d,%v), the writer said (%d,%v)", desc, n, err, wantN, wantErr), kase)
 		}
 	}
+	{
+		w := &recStringWriter{}
+		guard("Fprint", func() []byte {
+			if printf {
+				redact.Fprintf(w, format, args...)
+			} else {
+				redact.Fprint(w, args...)
+			}
+			return nil
+		})
+		rep.AddEval(1)
+		if w.strings != 0 {
+			rep.Violate("routes:fprint-writes", fmt.Sprintf("%s: Fprint delivered the text through WriteString (%d calls), not through a single Write", desc, w.strings), kase)
+		}
+	}
 	// builder, Sprintfn, inside SafeFormat: equal up to merging of adjacent envelopes
 	routes := []struct {
 		name string
@@ -134,6 +161,29 @@ func judgeC16(rep *lib.Report, c *lib.Ctx, ln *printerLine, res *realResult, kas
 		{"SafeFormat under %-08d", func() []byte { return []byte(redact.Sprintf("%-08d", sfRoute{printf, format, args})) }},
 	}
 	want := lib.NormOf(direct)
+	type keptResult struct {
+		name string
+		s    redact.RedactableString // the very string the route returned (no copy)
+		copy string
+	}
+	var kept []keptResult
+	keep := func(name string, fn func() redact.RedactableString) {
+		guard(name, func() []byte {
+			r := fn()
+			kept = append(kept, keptResult{name, r, string(append([]byte(nil), r...))})
+			return nil
+		})
+	}
+	keep("Sprintfn", func() redact.RedactableString {
+		return redact.Sprintfn(func(w redact.SafePrinter) {
+			if printf {
+				w.Printf(format, args...)
+			} else {
+				w.Print(args...)
+			}
+		})
+	})
+	keep("SafeFormat", func() redact.RedactableString { return redact.Sprint(sfRoute{printf, format, args}) })
 	for _, r := range routes {
 		out, ok := guard(r.name, r.fn)
 		rep.AddEval(1)
@@ -142,6 +192,14 @@ func judgeC16(rep *lib.Report, c *lib.Ctx, ln *printerLine, res *realResult, kas
 		}
 		if !lib.WellFormed(out) || !lib.ChunksEqual(lib.NormOf(out), want) {
 			rep.Violate("routes:differ", fmt.Sprintf("%s: route %s gives %q, the direct call %q", desc, r.name, out, direct), kase)
+		}
+	}
+	// what a route returned stays what it was, whatever is printed afterwards
+	_ = redact.Sprintf("%s|%d|%v", "xxxxxxxxxxxxxxxxxxxxxxxxxxxxxxxx", 123456789, redact.Safe("yyyyyyyyyyyyyyyyyyyyyyyy"))
+	_ = redact.Sprint("zzzzzzzzzzzzzzzzzzzzzzzzzzzzzzzzzzzzzzzzzzzzzzzz", 1)
+	for _, kr := range kept {
+		if string(kr.s) != kr.copy {
+			rep.Violate("routes:result-mutated", fmt.Sprintf("%s: the string returned by route %s changed after later print calls: %q -> %q", desc, kr.name, kr.copy, kr.s), kase)
 		}
 	}
 }
